@@ -355,6 +355,7 @@ class WLSim(object):
         self.fired0 = fs.errors_fired
         self.last_flat_info = None
         self.early = None
+        self.follow_mode = False
         self.fol_n, self.fol_S, self.fol_V = 0, 0.0, 0.0
 
     # --- oracles
@@ -396,6 +397,11 @@ class WLSim(object):
         if self.prop is not None and "proposal" not in self.pending_hook and self.hook_live():
             self.prop = None            # e.g. a shuffle used to pick the starting arrangement: not a proposal of the walk
             self.ctx.probe("move_that_was_not_a_proposal_ignored")
+        if not self.hook_live() and self.draws_before_move == 0:
+            # without the hook, draws are attributed by position (selection draw, move, acceptance draw): a move that
+            # no WL draw precedes (a shuffle picking the start; an implementation that draws its single number per
+            # step ahead of the move) leaves the next draw's role open
+            raise Discard("no trace hook, and a move arrived without a WL draw before it: the role of the draws cannot be told from the RNG seam alone")
         if self.prop is not None:
             self.resolve_without_draw()
         if self.step is not None and not self.synced:
@@ -429,7 +435,7 @@ class WLSim(object):
                 e, self.early = self.early, None
                 self.ctx.probe("acceptance_number_drawn_before_the_proposal_record")
                 kind_, p, q, idx_new, inr, P = self.prepare()
-                self.decide(kind_, p, q, idx_new, inr, P, e["u"], "early_draw")
+                self.decide(kind_, p, q, idx_new, inr, P, e["u"], e.get("cls", "early_draw"))
                 return
         if kind == "booked" and self.prop is not None:
             self.resolve_without_draw()
@@ -447,8 +453,18 @@ class WLSim(object):
             # follows a move before that record is either the acceptance number drawn early (the record follows) or
             # a selection draw after a move that was no proposal (e.g. a shuffle picking the start; a move follows).
             # The value is handed out now; what it was is settled by the next event.
-            u = min(max(self.rnd.random(), 0.0), ONE_MINUS)
-            self.early = {"u": u}
+            u, cls = self.rnd.random(), "early_uniform"
+            try:
+                m = self.model
+                kq = self.kappa(self.prop["q"])
+                if self.started and m.idx is not None and -1e-12 <= kq <= 1 + 1e-9:
+                    i_new, edge = m.bin(kq)
+                    if edge >= 1e-9:
+                        u, cls = self.choose_u(m.accept_prob(i_new), m.in_range(i_new))
+            except Exception:
+                pass
+            u = min(max(u, 0.0), ONE_MINUS)
+            self.early = {"u": u, "cls": "early_" + cls}
             return u
         if self.prop is None:
             return self.draw_r()
@@ -472,6 +488,10 @@ class WLSim(object):
             raise StepCap()
         self.in_step = True
         self.inflight_rows = 0
+        if self.follow_mode:
+            # this implementation decides with numbers the seam does not see; should it use a tape number for
+            # acceptance after all, the frequency test needs that number to be uniform
+            return min(max(self.rnd.random(), 0.0), ONE_MINUS)
         w = self.plan.get("move_weights") or [1, 1, 1, 1]
         tot = float(sum(w)) or 1.0
         x = self.rnd.random() * tot
@@ -568,7 +588,11 @@ class WLSim(object):
             # the acceptance number came from a generator outside the seam: the probability was checked against the
             # rule; which way the coin fell is taken from the hook's record, and the frequencies are tested below
             self.ctx.probe("decision_followed_from_hook")
-            if q != p:
+            first = not self.follow_mode
+            self.follow_mode = True          # from here on the tape hands out plain uniform numbers (see draw_r)
+            if q != p and first:
+                took = hb["cur"] == q        # the number behind this decision may have been one of the tape's banded values
+            elif q != p:
                 took = hb["cur"] == q
                 self.fol_n += 1
                 self.fol_S += (1.0 if took else 0.0) - P
@@ -592,9 +616,7 @@ class WLSim(object):
                       "min(1, exp(g_old - g_new)) allows: sum(accepted - P) = %.1f with variance %.1f (Bernstein bound < 1e-12)" % (
                           self.fol_n, "more" if self.fol_S > 0 else "less", self.fol_S, self.fol_V))
 
-    # --- acceptance draw: choose u, then decide
-    def draw_u(self):
-        kind, p, q, idx_new, inr, P = self.prepare()
+    def choose_u(self, P, inr):
         r = self.rnd
         cls = "uniform"
         if self.plan.get("accept_policy") == "adversarial" and r.random() < 0.8:
@@ -623,6 +645,12 @@ class WLSim(object):
                 u, cls = r.choice(((0.0, "zero_P1"), (ONE_MINUS, "max_P1"), (0.5, "half_P1")))
         else:
             u = r.random()
+        return u, cls
+
+    # --- acceptance draw: choose u, then decide
+    def draw_u(self):
+        kind, p, q, idx_new, inr, P = self.prepare()
+        u, cls = self.choose_u(P, inr)
         u = min(max(u, 0.0), ONE_MINUS)
         self.decide(kind, p, q, idx_new, inr, P, u, cls)
         return u
